@@ -5,7 +5,7 @@ from progprop import replay
 
 
 def run(tier):
-    fams = (tmpl.clpz_programs() + tmpl.fd_panic_programs() + tmpl.finite_domains()[:10] + tmpl.for_everyg()[:5] +
+    fams = (tmpl.clpz_programs() + tmpl.fd_panic_programs() + [t for t in tmpl.finite_domains() if not t[0].startswith('rf')][:10] + [t for t in tmpl.finite_domains() if t[0].startswith(('fd_distinct_', 'fd_constraints_posted_last', 'fd_extension_chain', 'fd_first_run'))] + tmpl.for_everyg()[:5] +
             tmpl.matching()[:5] + tmpl.compounds()[:5] + [t for t in tmpl.project_ops() if t[0] != 'project_two_states_direct'] +
             tmpl.committed()[:4] + tmpl.search_dfs()[:3])
     return progprop.run('C23', tier, fams, 'c23',
